@@ -125,8 +125,9 @@ Fixpoint state_eqb (a b : list (str * dtype)) : bool :=
   end.
 
 (* _check_dataframe: what every checked access (get_table_info) runs.  On an exception the
-   register keeps what was done to it and the snapshot is not updated; an empty frame is never
-   remembered as validated (the repair of the empty-snapshot defect). *)
+   register keeps what was done to it and the snapshot is dropped (the repair of the
+   refused-consultation defect); an empty frame is never remembered as validated (the repair of
+   the empty-snapshot defect). *)
 Definition with_reg (f : frame) (r : register) (last : option (list (str * dtype))) : frame :=
   {| f_cols := f_cols f; f_empty := f_empty f; f_strict := f_strict f; f_reg := r; f_last := last |}.
 
@@ -134,7 +135,7 @@ Definition consult (f : frame) : frame * option exc :=
   if (match f_last f with Some st => state_eqb st (f_cols f) | None => false end) then (f, None)
   else match update_columns f with
        | (r, None) => (with_reg f r (if f_empty f then None else Some (f_cols f)), None)
-       | (r, Some e) => (with_reg f r (f_last f), Some e)
+       | (r, Some e) => (with_reg f r None, Some e)
        end.
 
 (* Table.units: positional, from the register *)
@@ -158,14 +159,15 @@ Definition update_from (a b : colmeta) : colmeta :=
 
 Inductive step :=
 | SData (cols : list (str * dtype)) (empty : bool)   (* any direct manipulation of the dataframe *)
-| SAddColumn (n : str) (d : dtype) (u : option str)  (* frame.add_column / Table.add_column / t[n] = v *)
+| SAddColumn (n : str) (d : dtype) (u : option str) (empty : bool)  (* frame.add_column / t[n] = v;
+                                                        empty = df.empty afterwards *)
 | SRelabel (n : str) (u : str)                       (* unit setter with a non-special unit on a
                                                         column whose unit is not special *)
 | SConsult.                                          (* any checked access *)
 
 (* add_column: df[name] = values; then the register entry is created or updated; the validated
    snapshot is dropped (the repair of the stale-snapshot defect) *)
-Definition add_column (f : frame) (n : str) (d : dtype) (u : option str) : outcome frame :=
+Definition add_column (f : frame) (n : str) (d : dtype) (u : option str) (empty : bool) : outcome frame :=
   match (match u with
          | Some x => Some {| cm_unit := x; cm_display_unit := None; cm_format := None |}
          | None => match unit_from_kind (fst d) with
@@ -180,7 +182,7 @@ Definition add_column (f : frame) (n : str) (d : dtype) (u : option str) : outco
                | Some old => reg_set n (update_from old new_col) (f_reg f)
                | None => f_reg f ++ [(n, new_col)]
                end in
-      Fine {| f_cols := cols; f_empty := false; f_strict := f_strict f; f_reg := r; f_last := None |}
+      Fine {| f_cols := cols; f_empty := empty; f_strict := f_strict f; f_reg := r; f_last := None |}
   end.
 
 Definition relabel (f : frame) (n u : str) : frame :=
@@ -193,17 +195,26 @@ Definition relabel (f : frame) (n u : str) : frame :=
   | None => f
   end.
 
+(* the unit setter as the code has it: any unit, no check (a pure metadata edit) *)
+Definition relabel_any (f : frame) (n u : str) : frame :=
+  match reg_get n (f_reg f) with
+  | Some m => {| f_cols := f_cols f; f_empty := f_empty f; f_strict := f_strict f;
+                 f_reg := reg_set n {| cm_unit := u; cm_display_unit := cm_display_unit m; cm_format := cm_format m |} (f_reg f);
+                 f_last := f_last f |}
+  | None => f
+  end.
+
 (* one step; an exception leaves the frame as it was before the step (the caller gets the error) -
    except that a failed add_column has already assigned the data *)
 Definition do_step (f : frame) (s : step) : frame * bool (* raised? *) :=
   match s with
   | SData cols empty =>
       ({| f_cols := cols; f_empty := empty; f_strict := f_strict f; f_reg := f_reg f; f_last := f_last f |}, false)
-  | SAddColumn n d u =>
-      match add_column f n d u with
+  | SAddColumn n d u e =>
+      match add_column f n d u e with
       | Fine f' => (f', false)
-      | _ => ({| f_cols := set_col n d (f_cols f); f_empty := false; f_strict := f_strict f;
-                 f_reg := f_reg f; f_last := f_last f |}, true)
+      | _ => ({| f_cols := set_col n d (f_cols f); f_empty := e; f_strict := f_strict f;
+                 f_reg := f_reg f; f_last := None |}, true)
       end
   | SRelabel n u => (relabel f n u, false)
   | SConsult => match consult f with (f', None) => (f', false) | (f', Some _) => (f', true) end
@@ -225,4 +236,12 @@ Fixpoint dedup_reg (r : register) : register :=    (* dict construction: later k
 Definition make_frame (cols : list (str * dtype)) (empty strict : bool) (us : option (list str)) : frame * option exc :=
   consult {| f_cols := cols; f_empty := empty; f_strict := strict;
              f_reg := match us with Some l => rev (dedup_reg (rev (zip_units cols l))) | None => [] end;
+             f_last := None |}.
+
+(* TableDataFrame.__finalize__ for a pandas result with a single metadata-carrying source:
+   _combine_tables copies the source's register entries of the surviving columns (in the source's
+   register order), then the new frame is checked *)
+Definition finalize (src : frame) (cols : list (str * dtype)) (empty : bool) : frame * option exc :=
+  consult {| f_cols := cols; f_empty := empty; f_strict := f_strict src;
+             f_reg := filter (fun km => mem_str (fst km) (map fst cols)) (f_reg src);
              f_last := None |}.
